@@ -44,3 +44,9 @@
   (ite (and (bit opt #x0001) (not (= t #x06)))
        (ite (bit opt #x0004) (str.++ "(" v ")") (str.++ "( " v " )"))
        v))
+; ---- symbol text assembled from string and rune arguments (stack.go setSymbol)
+(define-fun-rec symCat ((Mem_Val (Array Int (Array Int Val))) (c Slice) (n Int)) String
+  (ite (<= n 0) ""
+    (let ((e (sslot Mem_Val c (- n 1))))
+      (str.++ (symCat Mem_Val c (- n 1))
+              (ite ((_ is v_str) e) (str_of e) (ite ((_ is v_int32) e) (runeStr (int32_of e)) ""))))))
